@@ -1,4 +1,426 @@
 import RzmqModel.Model.Multipart
 import RzmqModel.Model.Engine
+import RzmqModel.Proofs.EngineSec
+/-!
+Helper lemmas for C02 (multipart messages stay whole):
+* sender: `normaliseMore` through `getElem`, `WholeMsg` characterisations;
+* receiving socket: `StashInv` (queues hold whole messages, the stash is the rest of one message, frames returned
+  followed by the stash are the taken messages, `recv_multipart` results end a message) and `FifoInv` (per-pipe FIFO),
+  both lifted through `Stash.step` / `Stash.run`;
+* receiving session: `MpInv` (all frames of `partialBatch` carry MORE; every delivered message is whole and within the
+  limit), lifted through `step` → `feedAll` with `feedAll_inv` of `Proofs.EngineSec`.
+-/
 namespace Rzmq
+
+-- sender / WholeMsg ------------------------------------------------------------------------------
+
+
+theorem wholeMsg_cons (f : Frame) (rest : List Frame) :
+    WholeMsg (f :: rest) ↔ (rest = [] ∧ f.more = false) ∨ (rest ≠ [] ∧ f.more = true ∧ WholeMsg rest) := by
+  cases rest with
+  | nil => simp [WholeMsg]
+  | cons g r => simp [WholeMsg, List.getLast?_cons_cons, and_assoc]
+
+theorem wholeMsg_snoc {pb : List Frame} {f : Frame} (h : ∀ g ∈ pb, g.more = true) (hf : f.more = false) :
+    WholeMsg (pb ++ [f]) := by
+  refine ⟨by simp, ?_, ?_⟩
+  · simpa [List.dropLast_concat] using h
+  · intro g hg
+    simp at hg
+    subst hg; exact hf
+
+theorem normaliseMore_length (fs : List Frame) : (normaliseMore fs).length = fs.length := by
+  simp [normaliseMore]
+
+theorem normaliseMore_getElem (fs : List Frame) (i : Nat) (h : i < (normaliseMore fs).length) :
+    (normaliseMore fs)[i] = { fs[i]'(by simpa [normaliseMore] using h) with more := decide (i + 1 < fs.length) } := by
+  simp [normaliseMore]
+
+theorem normaliseMore_payloads (fs : List Frame) : (normaliseMore fs).map (·.payload) = fs.map (·.payload) := by
+  apply List.ext_getElem
+  · simp [normaliseMore]
+  · intro i h1 h2
+    simp [normaliseMore]
+
+theorem wholeMsg_iff_getElem (m : List Frame) :
+    WholeMsg m ↔ m ≠ [] ∧ ∀ i (h : i < m.length), m[i].more = decide (i + 1 < m.length) := by
+  constructor
+  · rintro ⟨h0, h1, h2⟩
+    refine ⟨h0, fun i h => ?_⟩
+    by_cases hi : i + 1 < m.length
+    · have : m[i] ∈ m.dropLast := by
+        rw [List.mem_iff_getElem]
+        exact ⟨i, by simpa using (by omega : i < m.length - 1), by simp⟩
+      simp [h1 _ this, hi]
+    · have : m.getLast? = some m[i] := by
+        rw [List.getLast?_eq_getElem?]
+        have : m.length - 1 = i := by omega
+        simp [this]
+      simp [h2 _ this, hi]
+  · rintro ⟨h0, h⟩
+    refine ⟨h0, ?_, ?_⟩
+    · intro f hf
+      rw [List.mem_iff_getElem] at hf
+      obtain ⟨i, hi, rfl⟩ := hf
+      simp at hi
+      simp [h i (by omega)]
+      omega
+    · intro f hf
+      rw [List.getLast?_eq_getElem?] at hf
+      have hl : 0 < m.length := List.length_pos_iff.mpr h0
+      rw [List.getElem?_eq_getElem (by omega)] at hf
+      cases hf
+      simp [h]
+      omega
+
+theorem normaliseMore_whole (fs : List Frame) (h : fs ≠ []) : WholeMsg (normaliseMore fs) := by
+  rw [wholeMsg_iff_getElem]
+  refine ⟨?_, ?_⟩
+  · intro h0
+    have := congrArg List.length h0
+    rw [normaliseMore_length] at this
+    exact h (List.eq_nil_of_length_eq_zero this)
+  · intro i hi
+    rw [normaliseMore_getElem]
+    simp only [normaliseMore_length]
+
+theorem normaliseMore_of_whole (fs : List Frame) (h : WholeMsg fs) : normaliseMore fs = fs := by
+  rw [wholeMsg_iff_getElem] at h
+  apply List.ext_getElem (normaliseMore_length fs)
+  intro i h1 h2
+  rw [normaliseMore_getElem, ← h.2 i h2]
+
+
+-- receiving socket -------------------------------------------------------------------------------
+
+
+theorem takeMessage_whole : ∀ (c : List Frame), WholeMsg c → takeMessage c = (c, [])
+  | [], h => absurd rfl h.1
+  | f :: rest, h => by
+    rcases (wholeMsg_cons f rest).mp h with ⟨rfl, hf⟩ | ⟨_, hf, hr⟩
+    · simp [takeMessage, hf]
+    · simp [takeMessage, hf, takeMessage_whole rest hr]
+
+-- queue access ------------------------------------------------------------------------------------
+theorem queueOf_setQueue_same (s : Stash) (p : Nat) (q : List Message) : (s.setQueue p q).queueOf p = q := by
+  have : ∀ l : List (Nat × List Message), l.find? (fun _ => false) = none := by
+    intro l; induction l <;> simp_all
+  simp [Stash.queueOf, Stash.setQueue, List.find?_append, this]
+
+theorem find?_filter_ne (l : List (Nat × List Message)) (p p' : Nat) (h : p' ≠ p) :
+    (l.filter (·.1 != p)).find? (·.1 == p') = l.find? (·.1 == p') := by
+  induction l with
+  | nil => rfl
+  | cons x xs ih =>
+    by_cases hx : x.1 = p
+    · have : x.1 ≠ p' := fun e => h (e.symm.trans hx)
+      have hb : (p == p') = false := by simpa using Ne.symm h
+      simp [hx, ih, hb]
+    · simp [List.find?_cons, hx, ih]
+
+theorem queueOf_setQueue_ne (s : Stash) (p p' : Nat) (q : List Message) (h : p' ≠ p) :
+    (s.setQueue p q).queueOf p' = s.queueOf p' := by
+  simp only [Stash.queueOf, Stash.setQueue, List.find?_append, find?_filter_ne _ _ _ h]
+  cases List.find? (fun x => x.1 == p') s.pipes <;> simp [Ne.symm h]
+
+
+theorem queueOf_mem {s : Stash} {p : Nat} {m : Message} (h : m ∈ s.queueOf p) : ∃ pq ∈ s.pipes, m ∈ pq.2 := by
+  unfold Stash.queueOf at h
+  cases hf : s.pipes.find? (·.1 == p) with
+  | none => rw [hf] at h; simp at h
+  | some pq => rw [hf] at h; exact ⟨pq, List.mem_of_find?_eq_some hf, by simpa using h⟩
+
+theorem pop_spec {s s' : Stash} {m : Message} (h : s.pop = some (m, s')) :
+    ∃ p q rdy, s.queueOf p = m :: q ∧
+      s' = { s.setQueue p q with ready := rdy, taken := s.taken ++ [m], takenFrom := s.takenFrom ++ [(p, m)] } := by
+  unfold Stash.pop at h
+  split at h
+  · cases h
+  · rename_i p rest _
+    split at h
+    · cases h
+    · rename_i m' q hq
+      simp only [Option.some.injEq, Prod.mk.injEq] at h
+      obtain ⟨rfl, rfl⟩ := h
+      exact ⟨p, q, _, hq, rfl⟩
+
+structure StashInv (s : Stash) : Prop where
+  cfg : s.cfg = {}
+  queues : ∀ pq ∈ s.pipes, ∀ m ∈ pq.2, WholeMsg m
+  cache : ∀ c, s.cache = some c → WholeMsg c
+  contig : s.returned ++ s.stashed = s.taken.flatten
+  mp : ∀ r ∈ s.mpResults, WholeMsg r
+
+theorem setQueue_queues {s : Stash} (h : ∀ pq ∈ s.pipes, ∀ m ∈ pq.2, WholeMsg m) (p : Nat) (q : List Message)
+    (hq : ∀ m ∈ q, WholeMsg m) : ∀ pq ∈ (s.setQueue p q).pipes, ∀ m ∈ pq.2, WholeMsg m := by
+  intro pq hpq m hm
+  simp only [Stash.setQueue, List.mem_append, List.mem_filter, List.mem_singleton] at hpq
+  rcases hpq with ⟨h1, _⟩ | rfl
+  · exact h pq h1 m hm
+  · exact hq m hm
+
+theorem queueOf_whole {s : Stash} (h : ∀ pq ∈ s.pipes, ∀ m ∈ pq.2, WholeMsg m) (p : Nat) :
+    ∀ m ∈ s.queueOf p, WholeMsg m := by
+  intro m hm
+  obtain ⟨pq, h1, h2⟩ := queueOf_mem hm
+  exact h pq h1 m h2
+
+theorem StashInv.init : StashInv {} := by
+  refine ⟨rfl, ?_, ?_, rfl, ?_⟩ <;> simp
+
+theorem StashInv.pop {s s' : Stash} {m : Message} (hi : StashInv s) (h : s.pop = some (m, s')) :
+    WholeMsg m ∧ s'.cfg = s.cfg ∧ (∀ pq ∈ s'.pipes, ∀ m ∈ pq.2, WholeMsg m) ∧ s'.cache = s.cache
+      ∧ s'.returned = s.returned ∧ s'.taken = s.taken ++ [m] ∧ s'.mpResults = s.mpResults := by
+  obtain ⟨p, q, rdy, hq, rfl⟩ := pop_spec h
+  have hw := queueOf_whole hi.queues p
+  rw [hq] at hw
+  refine ⟨hw m (by simp), rfl, ?_, rfl, rfl, rfl, rfl⟩
+  exact setQueue_queues hi.queues p q (fun m' hm' => hw m' (by simp [hm']))
+
+theorem StashInv.cache_none {s : Stash} (hi : StashInv s) (h : ∀ f rest, s.cache = some (f :: rest) → False) :
+    s.cache = none := by
+  cases hc : s.cache with
+  | none => rfl
+  | some c =>
+    cases c with
+    | nil => exact absurd rfl (hi.cache _ hc).1
+    | cons f rest => exact (h f rest hc).elim
+
+theorem stashed_of_none {s : Stash} (h : s.cache = none) : s.stashed = [] := by simp [Stash.stashed, h]
+
+theorem StashInv.step {s : Stash} (hi : StashInv s) (e : StashEv) (he : ∀ p m, e = .put p m → WholeMsg m) :
+    StashInv (s.step e).1 := by
+  cases e with
+  | register p cap => exact ⟨hi.cfg, hi.queues, hi.cache, hi.contig, hi.mp⟩
+  | detach p =>
+    have hk : s.cfg.keepOnDetach = true := by rw [hi.cfg]
+    simp only [Stash.step, hk, ↓reduceIte]
+    exact ⟨hi.cfg, hi.queues, hi.cache, hi.contig, hi.mp⟩
+  | put p m =>
+    simp only [Stash.step]
+    split
+    · exact hi
+    · split
+      · exact hi
+      · refine ⟨hi.cfg, ?_, hi.cache, hi.contig, hi.mp⟩
+        apply setQueue_queues hi.queues
+        intro m' hm'
+        rcases List.mem_append.mp hm' with h | h
+        · exact queueOf_whole hi.queues p m' h
+        · simp at h; subst h; exact he p _ rfl
+  | recv =>
+    simp only [Stash.step]
+    split
+    · rename_i f rest hc
+      have hw := hi.cache _ hc
+      have hct := hi.contig
+      simp only [Stash.stashed, hc, Option.getD_some] at hct
+      rcases (wholeMsg_cons f rest).mp hw with ⟨rfl, _⟩ | ⟨hne, _, hr⟩
+      · refine ⟨hi.cfg, hi.queues, ?_, ?_, hi.mp⟩
+        · intro c h; simp at h
+        · simpa [Stash.stashed] using hct
+      · have hie : rest.isEmpty = false := by cases rest <;> simp_all
+        refine ⟨hi.cfg, hi.queues, ?_, ?_, hi.mp⟩
+        · intro c h; simp only [hie] at h; cases h; exact hr
+        · simpa [Stash.stashed, hie] using hct
+    · rename_i hcn
+      have hc := hi.cache_none (fun f rest h => hcn f rest h)
+      have hct := hi.contig
+      rw [stashed_of_none hc, List.append_nil] at hct
+      split
+      · refine ⟨hi.cfg, hi.queues, ?_, ?_, hi.mp⟩
+        · intro c h; cases h
+        · simpa [Stash.stashed] using hct
+      · rename_i m s' hp
+        obtain ⟨hw, h1, h2, h3, h4, h5, h6⟩ := hi.pop hp
+        split
+        · exact absurd rfl hw.1
+        · rename_i f
+          refine ⟨h1.trans hi.cfg, h2, ?_, ?_, h6 ▸ hi.mp⟩
+          · intro c h; cases h
+          · simp [Stash.stashed, h4, h5, hct]
+        · rename_i f rest hne
+          rcases (wholeMsg_cons f rest).mp hw with ⟨rfl, _⟩ | ⟨_, _, hr⟩
+          · exact (hne rfl).elim
+          · refine ⟨h1.trans hi.cfg, h2, ?_, ?_, h6 ▸ hi.mp⟩
+            · intro c h; cases h; exact hr
+            · simp [Stash.stashed, h4, h5, hct]
+  | recvMultipart =>
+    have hk : s.cfg.mpUsesStash = true := by rw [hi.cfg]
+    simp only [Stash.step, hk, ↓reduceIte]
+    split
+    · rename_i f rest hc
+      have hw := hi.cache _ hc
+      have hct := hi.contig
+      simp only [Stash.stashed, hc, Option.getD_some] at hct
+      rw [takeMessage_whole _ hw]
+      refine ⟨hi.cfg, hi.queues, ?_, ?_, ?_⟩
+      · intro c h; simp at h
+      · simpa [Stash.stashed] using hct
+      · intro r hr
+        rcases List.mem_append.mp hr with h | h
+        · exact hi.mp r h
+        · simp at h; subst h; exact hw
+    · rename_i hcn
+      have hc := hi.cache_none (fun f rest h => hcn f rest h)
+      have hct := hi.contig
+      rw [stashed_of_none hc, List.append_nil] at hct
+      split
+      · exact hi
+      · rename_i m s' hp
+        obtain ⟨hw, h1, h2, h3, h4, h5, h6⟩ := hi.pop hp
+        refine ⟨h1.trans hi.cfg, h2, ?_, ?_, ?_⟩
+        · intro c h; exact hi.cache c (h3 ▸ h)
+        · simp [Stash.stashed, h3, hc, h4, h5, hct]
+        · intro r hr
+          simp only [h6] at hr
+          rcases List.mem_append.mp hr with h | h
+          · exact hi.mp r h
+          · simp at h; subst h; exact hw
+
+
+theorem StashInv.run (evs : List StashEv) : ∀ {s : Stash}, StashInv s →
+    (∀ p m, StashEv.put p m ∈ evs → WholeMsg m) → StashInv (s.run evs) := by
+  induction evs with
+  | nil => intro s hi _; exact hi
+  | cons e es ih =>
+    intro s hi h
+    exact ih (hi.step e (fun p m he => h p m (he ▸ List.mem_cons_self))) (fun p m hm => h p m (List.mem_cons_of_mem _ hm))
+
+theorem StashInv.stashed_tail {s : Stash} (hi : StashInv s) (hs : s.stashed ≠ []) :
+    (∀ f ∈ s.stashed.dropLast, f.more = true) ∧ (∀ f, s.stashed.getLast? = some f → f.more = false) := by
+  cases hc : s.cache with
+  | none => exact absurd (stashed_of_none hc) hs
+  | some c =>
+    have hw := hi.cache c hc
+    have : s.stashed = c := by simp [Stash.stashed, hc]
+    rw [this]
+    exact hw.2
+
+-- per-pipe FIFO ------------------------------------------------------------------------------------
+def FifoInv (s : Stash) : Prop :=
+  ∀ p, ((s.takenFrom.filter (·.1 == p)).map (·.2)) ++ s.queueOf p = (s.accepted.filter (·.1 == p)).map (·.2)
+
+theorem FifoInv.congr {s s' : Stash} (hi : FifoInv s) (h1 : s'.pipes = s.pipes) (h2 : s'.takenFrom = s.takenFrom)
+    (h3 : s'.accepted = s.accepted) : FifoInv s' := by
+  intro p
+  have := hi p
+  simpa only [Stash.queueOf, h1, h2, h3] using this
+
+theorem FifoInv.pop {s s' : Stash} {m : Message} (hi : FifoInv s) (h : s.pop = some (m, s')) : FifoInv s' := by
+  obtain ⟨p, q, rdy, hq, rfl⟩ := pop_spec h
+  intro p'
+  have h0 := hi p'
+  show List.map _ (List.filter _ (s.takenFrom ++ [(p, m)])) ++ (s.setQueue p q).queueOf p' =
+    List.map _ (List.filter _ s.accepted)
+  by_cases hp : p' = p
+  · subst hp
+    rw [queueOf_setQueue_same]
+    rw [hq] at h0
+    simpa [List.filter_append] using h0
+  · rw [queueOf_setQueue_ne _ _ _ _ hp]
+    have hb : (p == p') = false := by simpa using Ne.symm hp
+    simpa [List.filter_append, List.filter_cons, hb] using h0
+
+theorem FifoInv.step {s : Stash} (hi : FifoInv s) (e : StashEv) : FifoInv (s.step e).1 := by
+  cases e with
+  | register p cap => exact hi.congr rfl rfl rfl
+  | detach p => exact hi.congr rfl rfl rfl
+  | put p m =>
+    simp only [Stash.step]
+    split
+    · exact hi
+    · split
+      · exact hi
+      · intro p'
+        have h0 := hi p'
+        show List.map _ (List.filter _ s.takenFrom) ++ (s.setQueue p (s.queueOf p ++ [m])).queueOf p' =
+          List.map _ (List.filter _ (s.accepted ++ [(p, m)]))
+        by_cases hp : p' = p
+        · subst hp
+          rw [queueOf_setQueue_same, ← List.append_assoc, h0]
+          simp [List.filter_append]
+        · rw [queueOf_setQueue_ne _ _ _ _ hp]
+          have hb : (p == p') = false := by simpa using Ne.symm hp
+          simpa [List.filter_append, List.filter_cons, hb] using h0
+  | recv =>
+    simp only [Stash.step]
+    split
+    · exact hi.congr rfl rfl rfl
+    · split
+      · exact hi.congr rfl rfl rfl
+      · rename_i m s' hp
+        have := hi.pop hp
+        split <;> exact this.congr rfl rfl rfl
+  | recvMultipart =>
+    simp only [Stash.step]
+    split
+    · exact hi.congr rfl rfl rfl
+    · split
+      · exact hi
+      · rename_i m s' hp
+        exact (hi.pop hp).congr rfl rfl rfl
+
+theorem FifoInv.run (evs : List StashEv) : ∀ {s : Stash}, FifoInv s → FifoInv (s.run evs) := by
+  induction evs with
+  | nil => intro s hi; exact hi
+  | cons e es ih => intro s hi; exact ih (hi.step e)
+
+theorem FifoInv.init : FifoInv {} := by intro p; rfl
+
+
+-- receiving session ------------------------------------------------------------------------------
+
+
+def MpInv (s : Eng) (e : List AppAct) : Prop :=
+  (∀ f ∈ s.partialBatch, f.more = true) ∧
+    ∀ m, AppAct.deliver m ∈ e → WholeMsg m ∧ m.length ≤ Gen.MAX_FRAMES_PER_MESSAGE
+
+theorem step_mp {spec : AbsSpec} {cfg : Cfg} {t : Nat} {s s' : Eng} {o : Out}
+    (h : step spec cfg t s = some (s', o)) (hb : ∀ f ∈ s.partialBatch, f.more = true) :
+    (∀ f ∈ s'.partialBatch, f.more = true) ∧
+      ∀ m, AppAct.deliver m ∈ o.app → WholeMsg m ∧ m.length ≤ Gen.MAX_FRAMES_PER_MESSAGE := by
+  obtain ⟨phase, acc, version, revisionSent, v2IdentitySent, v2PeerType, mech, pendingSealed, sealed,
+    lastActivity, lastPing, waitingForPong, partialBatch, panicked, gNegotiated, gTokens⟩ := s
+  simp only at hb
+  cases phase <;> simp only [step] at h <;> repeat' (split at h)
+  all_goals first
+    | (cases h; done)
+    | skip
+  all_goals
+    simp only [Option.some.injEq, Prod.mk.injEq, fail, enterReady] at h
+    obtain ⟨rfl, rfl⟩ := h
+  all_goals refine ⟨?_, ?_⟩
+  all_goals first
+    | exact hb
+    | (intro f hf; simp at hf; done)
+    | skip
+  all_goals first
+    | (intro f hf
+       rcases List.mem_append.mp hf with h | h
+       · exact hb f h
+       · simp only [List.mem_singleton] at h; subst h; assumption)
+    | (intro m hm
+       simp only [List.mem_singleton, AppAct.deliver.injEq] at hm
+       subst hm
+       rename_i hlim _ hmore _
+       refine ⟨wholeMsg_snoc hb (by simpa using hmore), ?_⟩
+       simp [Gen.dataFrameLimitChecked] at hlim
+       simp only [List.length_append, List.length_singleton]
+       omega)
+
+
+theorem feedAll_mp (spec : AbsSpec) (cfg : Cfg) (reads : List (Nat × Bytes)) :
+    MpInv (feedAll spec cfg Eng.init reads).1 (feedAll spec cfg Eng.init reads).2.app := by
+  have := feedAll_inv (P := MpInv) (spec := spec) (cfg := cfg) (fun s e d h => h)
+    (fun t s e s' o h hs => by
+      obtain ⟨h1, h2⟩ := step_mp hs h.1
+      refine ⟨h1, fun m hm => ?_⟩
+      rcases List.mem_append.mp hm with hm | hm
+      · exact h.2 m hm
+      · exact h2 m hm)
+    reads Eng.init [] (And.intro (fun f hf => nomatch hf) (fun m hm => nomatch hm))
+  simpa using this
+
+
 end Rzmq
